@@ -1,7 +1,7 @@
 """Rule framework: obligations, findings, evidence, exit codes."""
 import ast, json, os, sys, time, hashlib, traceback
 from . import REPO
-from .load import Repo, AnalysisError, loc
+from .load import Repo, AnalysisError, loc, canon
 from . import terms as T
 
 SELF = ('arg', 0)
@@ -147,7 +147,7 @@ class Ctx:
 
     def spec_summ(self, src, name=None, args=None, kwargs=None, self_term=None, **kw):
         """Summarise a specification function written in the same surface syntax."""
-        tree = ast.parse(_dedent(src))
+        tree = canon(ast.parse(_dedent(src)), spec=True)
         fdefs = [n for n in tree.body if isinstance(n, ast.FunctionDef)]
         f = fdefs[0] if name is None else [x for x in fdefs if x.name == name][0]
         pe = T.PE(resolve_global=lambda n: None if n in T.BUILTINS else ('g', n), **kw)
